@@ -397,6 +397,8 @@ class State:
                 mk.append((name, tuple(sorted((cs(a), cs(b)) for a, b in v.items() if a in mapping))))
             elif name == 'nth':
                 mk.append((name, tuple(sorted(((cs(a[1]),) + a[2:], cs(b)) for a, b in v.items() if a[1] in mapping and b in mapping))))
+            elif name == 'lastapp':
+                mk.append((name, tuple(sorted(((cs(a), vkey(b)) for a, b in v.items() if a in mapping), key=repr))))
             elif name.startswith('ref:'):
                 mk.append((name, cs(v) if isinstance(v, int) else repr(v)))       # a single heap symbol
             elif name == 'parsed_root':
